@@ -137,10 +137,16 @@ def h_postselect(env, N, outcome, fix=None):
     g = env.bits('obs', (2 * N,)) if fix is None else env.const(fix)
     p = env.signs('obs_sign', (1,))[0]
     state = mk_state(M, env, gs, ps, 0)
-    res = env.run(lambda: state.postselect(M.pa.Pauli(g.copy(), p), outcome))
+    obs = M.pa.Pauli(g.copy(), p)
+    res = env.run(lambda: state.postselect(obs, outcome))
     env.goal('no_exception', b_not(res.raised))
+    env.goal('observable_object_unchanged', b_and(arr_eq(obs.g, g), eq(obs.p, p)))
     if res.value is None:
         return
+    # the same observable object used again on a second copy of the state: the same probability
+    second = mk_state(M, env, gs, ps, 0)
+    again = env.run(lambda: second.postselect(obs, outcome))
+    env.goal('same_observable_object_second_use', b_and(b_not(again.raised), eq(again.value, res.value) if again.value is not None else False))
     prob = res.value
     want_p = (p + 2 * outcome) % 4                      # the operator whose +1 eigenspace is requested
     e = ref.ref_expect(gs, ps, 0, N, g, want_p)         # Tr(rho * (-1)^s P)
